@@ -123,6 +123,137 @@ fn predicate_race(mode: u8, n: u64, key: u64, race: u8, force: bool, out: &mut O
     Ok(())
 }
 
+/// The same race on collections whose values are zero-sized: a `HashSet<u64>` (kind 0,
+/// `HashSet::retain`) and a `HashMap<u64, ()>` (kind 1 retain, kind 2 retain_force). A value of
+/// type `()` that was put there by a later insert is still a different value from the one the
+/// predicate inspected: the insert completed (and reported the key as present) after the
+/// inspection and before the conditional removal, so `retain` must leave the entry.
+fn predicate_race_unit(mode: u8, n: u64, key: u64, race: u8, kind: u8, out: &mut Outcome) -> Result<(), String> {
+    use flurry::HashSet;
+    let set: Arc<HashSet<u64, HB>> = Arc::new(HashSet::with_capacity_and_hasher(64, HB::new(mode)));
+    let map: Arc<HashMap<u64, (), HB>> = Arc::new(HashMap::with_capacity_and_hasher(64, HB::new(mode)));
+    {
+        let (g, g2) = (set.guard(), map.guard());
+        for k in 0..n {
+            set.insert(k, &g);
+            map.insert(k, (), &g2);
+        }
+    }
+    let phase = Arc::new(AtomicU8::new(0));
+    let (st, m, p) = (set.clone(), map.clone(), phase.clone());
+    // what the writer's insert reported: Some(true) = "the key was already present"
+    let writer = std::thread::spawn(move || -> Option<Option<bool>> {
+        let t0 = std::time::Instant::now();
+        while p.load(Ordering::SeqCst) != 1 {
+            if t0.elapsed().as_secs() > 10 {
+                return None;
+            }
+            std::thread::yield_now();
+        }
+        let mut present = None;
+        if kind == 0 {
+            let g = st.guard();
+            match race {
+                0 => present = Some(!st.insert(key, &g)),
+                1 => {
+                    st.remove(&key, &g);
+                }
+                2 => {
+                    st.remove(&key, &g);
+                    st.insert(key, &g);
+                }
+                _ => {}
+            }
+        } else {
+            let g = m.guard();
+            match race {
+                0 => present = Some(m.insert(key, (), &g).is_some()),
+                1 => {
+                    m.remove(&key, &g);
+                }
+                2 => {
+                    m.remove(&key, &g);
+                    m.insert(key, (), &g);
+                }
+                _ => {}
+            }
+        }
+        p.store(2, Ordering::SeqCst);
+        Some(present)
+    });
+    let mut shown = 0u32;
+    {
+        let mut inspect = |k: &u64| {
+            if *k == key {
+                shown += 1;
+                if shown == 1 {
+                    phase.store(1, Ordering::SeqCst);
+                    let t0 = std::time::Instant::now();
+                    while phase.load(Ordering::SeqCst) != 2 && t0.elapsed().as_secs() < 10 {
+                        std::thread::yield_now();
+                    }
+                }
+                false
+            } else {
+                true
+            }
+        };
+        match kind {
+            0 => {
+                let g = set.guard();
+                set.retain(|k| inspect(k), &g);
+            }
+            1 => {
+                let g = map.guard();
+                map.retain(|k, _| inspect(k), &g);
+            }
+            _ => {
+                let g = map.guard();
+                map.retain_force(|k, _| inspect(k), &g);
+            }
+        }
+    }
+    if shown == 0 {
+        phase.store(1, Ordering::SeqCst);
+    }
+    let wrote = writer.join().map_err(|_| "writer panicked".to_string())?;
+    let Some(insert_saw_present) = wrote else {
+        return Err(format!("INCONCLUSIVE predicate saw key {key} {shown} times, the writer never ran"));
+    };
+    if shown == 0 || shown > 2 || (shown == 2 && race != 2) {
+        return Err(format!("INCONCLUSIVE predicate saw key {key} {shown} times"));
+    }
+    out.add("races_completed_between_inspection_and_removal", 1);
+    out.add("races_on_zero_sized_values", 1);
+    let fin = if kind == 0 { set.contains(&key, &set.guard()) } else { map.contains_key(&key, &map.guard()) };
+    let which = ["HashSet::retain", "retain on HashMap<_, ()>", "retain_force on HashMap<_, ()>"][kind as usize];
+    let expect = match (kind, race) {
+        (2, _) => false,
+        (_, 0) => true,
+        (_, 1) => false,
+        (_, 2) => shown != 2,
+        _ => false,
+    };
+    if fin != expect {
+        return Err(format!(
+            "{which}: the predicate inspected key {key} and returned false after a concurrent '{}' had completed{}; the key is finally {}, expected {}",
+            RACES[race as usize],
+            match insert_saw_present {
+                Some(true) => " (the insert reported the key as present, i.e. it replaced the value)",
+                Some(false) => " (the insert reported the key as new)",
+                None => "",
+            },
+            if fin { "present" } else { "absent" },
+            if expect { "present" } else { "absent" }
+        ));
+    }
+    let len = if kind == 0 { set.len() } else { map.len() } as u64;
+    if len != n - 1 + fin as u64 {
+        return Err(format!("{which}: len() = {len} after the race"));
+    }
+    Ok(())
+}
+
 /// Without concurrent writers retain / retain_force equal the standard retain: every entry is
 /// shown to the predicate exactly once and exactly the rejected ones are gone.
 fn sequential(mode: u8, n: u64, pred_kind: u8, force: bool, via_set: bool) -> Result<(), String> {
@@ -228,6 +359,36 @@ pub fn run(ctx: &Ctx) -> Outcome {
                                 format!("c13/predicate-race/{}", if force { "retain_force" } else { "retain" }),
                                 format!("{e} [hasher {}, {n} keys]", mode_name(mode)),
                                 Json::obj().with("check", Json::s("c13")).with("hasher", Json::s(mode_name(mode))).with("n", Json::u(n)).with("key", Json::u(key)).with("race", Json::s(RACES[race as usize])).with("force", Json::Bool(force)),
+                            );
+                            return out;
+                        }
+                    }
+                }
+            }
+        }
+    }
+    'unit: for &(mode, n) in &[(UNIFORM, 5u64), (CONSTANT, 6), (CONSTANT, 13), (MODGROUPS, 12)] {
+        for key in 0..n {
+            for race in 0..3u8 {
+                for kind in 0..3u8 {
+                    idx += 1;
+                    if idx % ctx.shards != ctx.shard {
+                        continue;
+                    }
+                    if !ctx.time_left() {
+                        break 'unit;
+                    }
+                    out.evaluations += 1;
+                    out.add("predicate_race_cases", 1);
+                    out.distinct.insert(fnv(fnv(fnv(fnv(fnv(FNV_OFFSET ^ 0x130, mode as u64), n), key), race as u64), kind as u64));
+                    match guarded(|| predicate_race_unit(mode, n, key, race, kind, &mut out)) {
+                        Ok(Ok(())) => {}
+                        Ok(Err(e)) if e.starts_with("INCONCLUSIVE") => out.inconclusive.push(e),
+                        Ok(Err(e)) | Err(e) => {
+                            out.violate(
+                                "c13/predicate-race/zero-sized",
+                                format!("{e} [hasher {}, {n} keys]", mode_name(mode)),
+                                Json::obj().with("check", Json::s("c13")).with("hasher", Json::s(mode_name(mode))).with("n", Json::u(n)).with("key", Json::u(key)).with("race", Json::s(RACES[race as usize])).with("kind", Json::u(kind)),
                             );
                             return out;
                         }
